@@ -9,17 +9,17 @@ LEVEL = "proof"
 
 THEOREMS = [
     "Mpc.Mesh.reach_inv",
-    "Mpc.C19_atomic_runs_are_runs",
-    "Mpc.C19_mesh_safe_partial",
-    "Mpc.C19_no_error_step_partial",
-    "Mpc.C19_mesh_progress_partial",
-    "Mpc.C19_measure_decreases_partial",
-    "Mpc.C19_terminates_partial",
-    "Mpc.C19_mesh_final_partial",
-    "Mpc.C19_final_quiet_partial",
-    "Mpc.C19_faithful_deadlock",
-    "Mpc.C19_faithful_return_incomplete",
-    "Mpc.C19_faithful_error",
+    "Mpc.C19_mesh_safe",
+    "Mpc.C19_no_error_step",
+    "Mpc.C19_mesh_progress",
+    "Mpc.C19_measure_decreases",
+    "Mpc.C19_terminates",
+    "Mpc.C19_mesh_final",
+    "Mpc.C19_final_quiet",
+    "Mpc.C19_fix_blocks_early_wait",
+    "Mpc.C19_old_order_deadlock",
+    "Mpc.C19_old_order_return_incomplete",
+    "Mpc.C19_old_order_error",
 ]
 
 HOOK_POINTS = ["join", "lconnect", "waitdone", "info", "hello", "gotinfo", "dial", "accept", "accstore", "accdec",
@@ -55,13 +55,14 @@ def body(func_re):
 def facts(ctx):
     """Shape of the Go code the model mirrors step by step."""
     acc = body(r"\(nw \*Network\) acceptConn\(")
-    order = [acc.find(x) for x in ("nw.need[connID] == 0", "nw.need[connID]--", "nw.c.Broadcast()", "nw.m.Unlock()",
-                                   "peer.SetConn(connID, conn)", "nw.addPeer(peer)")]
-    # the second Unlock (after the Broadcast) is the one that matters
-    unlock2 = acc.find("nw.m.Unlock()", acc.find("nw.c.Broadcast()"))
-    order[3] = unlock2
-    ctx.fact("acceptConn: check need==0, need--, Broadcast, Unlock, then SetConn, then addPeer (two critical sections: "
-             "model steps accDec / accStore)", all(o >= 0 for o in order) and order == sorted(order), True)
+    chk = acc.find("nw.need[connID] == 0")
+    marks = [chk, acc.find("nw.m.Unlock()", acc.find("too many connections")), acc.find("peer.SetConn(connID, conn)"),
+             acc.find("nw.addPeer(peer)"), acc.find("nw.m.Lock()", acc.find("nw.addPeer(peer)")),
+             acc.find("nw.need[connID]--"), acc.find("nw.c.Broadcast()")]
+    ctx.fact("acceptConn: check need==0, Unlock, SetConn, addPeer, Lock, need--, Broadcast (three critical sections: "
+             "model steps accTake / accStore / accDec; the store precedes the signal)",
+             all(o >= 0 for o in marks) and marks == sorted(marks) and acc.count("nw.need[connID]--") == 1 and
+             acc.count("nw.c.Broadcast()") == 1, True)
     ctx.fact("acceptConn: connection id = low byte of the hello magic, checked against len(need)",
              ["connID := int(byte(magic))" in acc, "connID >= len(nw.need)" in acc,
               "magic&connMagicMask != connMagic" in acc], [True, True, True])
@@ -98,11 +99,6 @@ def facts(ctx):
               "nw.Peers = append(nw.Peers, peer)" in ap, "return nw.Peers[i].ID < nw.Peers[j].ID" in ap], [True] * 4)
 
 
-def canon(line):
-    # a trace with the signal-before-store pattern is only classified
-    return line.split(" | ")[0]
-
-
 def run(ctx):
     ctx.prove("MpcVerif.Props.C19", THEOREMS)
     if ctx.tier == "thorough":
@@ -111,40 +107,28 @@ def run(ctx):
     have_hooks = hooks_present(ctx)
     facts(ctx)
     quick = ctx.tier == "quick"
-    n = 160 if quick else 1600
+    n = 600 if quick else 5000
     par = "8" if quick else "12"
     seeds = [ctx.seed] if quick else [ctx.seed, ctx.seed + 1000, ctx.seed + 2000]
     if have_hooks and ctx.build_hx():
-        agree = total_race = 0
         for s in seeds:
             ops, out, meta = ctx.run_hx("mesh", n, seed=s, extra_args=["-par", par])
             ctx.absorb_meta(meta)
-            ctx.correspond("recorded traces are runs of the model with the observed outcome (seed %d)" % s,
-                           ops, out, canon=canon)
+            ctx.correspond("recorded traces are runs of the model with the observed outcome (seed %d)" % s, ops, out)
             for line in open(ops, errors="replace"):
                 ctx.distinct.add(hashlib.sha1(line.encode()).digest())
-            # informational: how well the model predicts the racy sessions
-            model = ops + ".model"
-            if os.path.exists(model):
-                for a, b in zip(open(out, errors="replace"), open(model, errors="replace")):
-                    if a.startswith("race"):
-                        total_race += 1
-                        agree += a.strip() == b.strip()
-        ctx.coverage["race_sessions"] = total_race
-        ctx.coverage["race_sessions_outcome_predicted_by_model"] = agree
-        # the three Lean negation witnesses as forced schedules of the real code
+        # the schedules of the old-ordering witnesses, forced on the real code: since the repair
+        # (b60eeb5) they must no longer produce the failure
         ops, out, meta = ctx.run_hx("witness", 1 if quick else 3, seed=ctx.seed)
+        ctx.absorb_meta(meta)
         c = meta.get("counters") or {}
-        ctx.absorb_meta({"counters": c, "samples": meta.get("samples"), "harness_rc": meta.get("harness_rc"),
-                         "harness_log": meta.get("harness_log")}, prefix="")
-        ctx.correspond("forced-schedule replays of the Lean witnesses: model verdict = real outcome", ops, out)
-        known_now = any(f.get("sig") == "c19-signal-before-store" for f in ctx.fails)
-        for w, thm in (("deadlock", "C19_faithful_deadlock"), ("early-return", "C19_faithful_return_incomplete"),
-                       ("bad-list", "C19_faithful_error")):
-            ok = c.get("witness_%s_reproduced" % w, 0) > 0 and c.get("witness_%s_not_reproduced" % w, 0) == 0
-            ctx.oblige("Lean negation witness %s (%s) reproduces on the real code under the forced schedule" % (w, thm),
-                       ok, "counters: %s\nIf p2p was repaired (store before signal) the model's accDec/accStore split "
-                           "and known_findings.json must be updated." % c)
+        ctx.correspond("forced schedules of the old-ordering witnesses: model verdict = real outcome", ops, out)
+        for w, thm in (("deadlock", "C19_old_order_deadlock"), ("early-return", "C19_old_order_return_incomplete"),
+                       ("bad-list", "C19_old_order_error")):
+            ok = c.get("witness_%s_gone" % w, 0) > 0 and c.get("witness_%s_reproduced" % w, 0) == 0 and \
+                c.get("witness_%s_other" % w, 0) == 0
+            ctx.oblige("forced schedule of the old-ordering witness %s (%s) no longer fails on the real code" % (w, thm),
+                       ok, "counters: %s" % c)
         cc = ctx.coverage.get("counters", {})
         combos = sorted(k for k in cc if re.match(r"n\d_m\d$", k))
         ctx.coverage["n_m_combinations_seen"] = len(combos)
@@ -152,7 +136,6 @@ def run(ctx):
                    str(combos))
         ctx.oblige("every session's ports were available (no exhausted retries)",
                    not any(f.get("sig") == "c19-no-ports" for f in ctx.fails), "")
-        ctx.coverage["known_finding_seen_this_run"] = known_now
         if ctx.broken and not [f for f in ctx.fails if not ctx.is_known(f)]:
             # widened search for a concrete failing session (oracle only)
             for s in range(ctx.seed + 7000, ctx.seed + 7003):
@@ -165,20 +148,20 @@ def run(ctx):
         "through all of 2..6 x 1..4; join order = seeded permutation; start mode seq (Joins in order, Connects "
         "concurrent) or conc (every party its own goroutine with seeded start offsets, leader first/last/among); 8 "
         "delay profiles (none, light, heavy, dialslow, acceptslow, oneslow, midaccept) derived from the case seed and "
-        "injected at the hook points before dial / accept / hello / info (midaccept also between need-- and the "
-        "store); oracle per session: every Connect returns nil before the deadline, table at return and final table "
+        "injected at the hook points before dial / accept / hello / info (midaccept also inside acceptConn between "
+        "the check of need[k] and the store); oracle per session: every Connect returns nil before the deadline, table at return and final table "
         "complete (n peers, exactly m non-nil connections each, no *Conn in two slots, need all 0), tagged ping "
         "(from,to,k) on every Peers[q].Conns[k] in both directions arrives on the peer's Conns[k] for the sender; "
         "distinct = distinct recorded traces")
     ctx.assumptions += [
-        "theorems are about the atomic system (accept goroutine not interrupted between need[k]-- and SetConn/addPeer); "
-        "the code as it is violates all three statements (Lean witnesses C19_faithful_*, reproduced on the real code)",
         "TCP modelled as: a connection becomes acceptable when its hello is sent, accept order arbitrary (the real "
         "accept loop takes connections in establishment order and blocks on a missing hello: fewer behaviours); "
         "sync.Cond wake-ups modelled as the waitDone step being enabled whenever need[k] = 0",
         "a dial (net.Dial, hello, SetConn on the dialler's own slot) is one model step; addresses = party ids",
-        "unlocked reads of nw.Peers in connectLeader are atomic snapshots in the model; sessions whose trace shows a "
-        "wait loop ending between need[k]-- and the store are classified, their exact outcome is not compared",
+        "the unlocked reads of nw.Peers in connectLeader are atomic snapshots in the model (they happen after "
+        "need[0] = 0, i.e. after the last append: proved as part of the invariant)",
+        "in a recorded trace the store of an accepted connection is placed directly before its need[k]-- (it has no "
+        "hook of its own; it lies between the hooks accepted and accdec on one goroutine)",
         "real timing is sampled (seeded delays + OS scheduling), not enumerated; m <= 256 (dial rejects larger ids)",
         "Create precedes every Join (otherwise Join returns 'connection refused'); every party calls Connect",
     ]
@@ -187,12 +170,13 @@ def run(ctx):
     ]
     return ctx.finish(
         "Lean: inductive invariant of the mesh transition system for every n >= 2, 1 <= m <= 256 and every "
-        "interleaving of the atomic system (reach_inv); from it mesh_safe (no error path, every table entry is the "
+        "interleaving of the code as it is, including every interleaving inside acceptConn (check / store / "
+        "decrement+signal as separate steps) (reach_inv); from it mesh_safe (no error path, every table entry is the "
         "canonical connection under the same k at both ends, none lost), mesh_progress (deadlock freedom + a measure "
         "that every step decreases, so every execution is finite and ends with every Connect returned), mesh_final "
-        "(table complete when Connect returns; k-th <-> k-th). For the code as it is (need-- and Broadcast before the "
-        "store) the three statements are refuted by machine-checked witnesses, each replayed on the real code by a "
-        "forced schedule. Tie: every recorded event trace of real sessions is validated as a run of the model with "
-        "the observed end state; traces without the race are additionally replayed in the atomic system (stores "
-        "moved behind their need--) and must end final with every table complete at its return event. Structural "
-        "facts pin the statement order of acceptConn/dial/connectPeer/connectLeader/SetConn/addPeer.")
+        "(table complete when Connect returns; k-th <-> k-th). The ordering before the repair b60eeb5 (signal before "
+        "store) is kept as events oldDec/oldStore only to state what the repair removed (C19_old_order_*); their "
+        "schedules are forced on the real code on every run and must no longer fail. Tie: every recorded event trace "
+        "of real sessions is validated as a run of the model that ends final, with every table complete at its "
+        "return event. Structural facts pin the statement order of acceptConn/dial/connectPeer/connectLeader/"
+        "SetConn/addPeer.")
